@@ -208,6 +208,9 @@ func checkC12(c *Check) {
 
 	// ---------- 3: goroutines ----------
 	checkGoroutines(c)
+
+	// ---------- 4: nobody leaves the group that is killed and reaped ----------
+	checkConfigTables(c, "4/no-group-escape", "group")
 }
 
 // errEdgeFilter drops the failure edge of an (x, err) call: the If on `err != nil`.
